@@ -39,6 +39,12 @@ CHECKS = {
    text="The public generic DominatorTree::new is instantiated on a harness node type and all four relations (dominator sets, immediate dominators, dominator-tree children, dominance frontiers) are compared with a reference computed from the definition (reachability with one node removed). Every rooted digraph with at most 5 nodes is enumerated (747 939 graphs, self loops and irreducible shapes included); larger graphs (6-40 nodes, five shape families) are generated. Exhaustive in the small scope, sampled beyond.",
    note="Assumes the property's precondition (entry = node 0 without predecessors, all nodes reachable). Trusts the reference in harness/src/props/c15.rs.",
    design="DESIGN.md §3 C15"),
+ "C01": dict(
+   level="exploration",
+   technique="fuzzing of the real release binary with generated inputs: raw bytes / token soup, grammar-derived programs (every production, semantically undisciplined and semantically valid), token-level mutations of valid programs, x random option sets; oracle = clean-termination predicate under CPU and memory limits (proptest tapes with shrinking; libFuzzer in-process targets in the thorough tier)",
+   text="The real CLI is executed as a subprocess (RLIMIT_CPU, RLIMIT_AS, cleared environment) on generated projects of 1-3 files with random supported options. A run is clean iff it exits by itself with status 0 or 1, its last stdout line is the summary, the status matches the summary and stderr shows no panic, stack overflow or allocation failure. Evidence reports how many inputs were rejected by the lexer/parser, by the desugarer, or reached the analysis stage, and the histogram of report ids produced. All committed reproducers are replayed under all three curves. One recorded known finding (stack overflow on ~2000 nested operators) is reported as KNOWN-FINDING and excluded from the search by the generators' nesting bound.",
+   note="Modest size = files <= 16 KiB and nesting depth <= 8. Hang = more than 120 CPU-seconds (480 on re-run), far above the documented 2 x 10 s time box. Absence of crashes cannot be established by sampling.",
+   design="DESIGN.md §3 C01"),
  "C05": dict(
    level="exploration",
    technique="differential testing of the comment stripper against a reference lexer (exhaustive over all strings <= 8 symbols of a 7-symbol alphabet, plus generated fragment strings) and metamorphic testing of the whole binary (blank comments / remove comments / inject unterminated opener) on generated programs",
